@@ -121,7 +121,12 @@ class Oracle:
                 w.violate('not-closed', features(w, state=str(proc.state)), None)
             except plumpy.ClosedError:
                 pass
-            # step_until_terminated() returns
+            # step_until_terminated() returns (at the latest when what a step of its own awaits has completed: a step
+            # that was in flight when the process was terminated from outside cannot be taken back)
+            if not w.task.done():
+                for g in w.pending_gates():
+                    w.gates[g].set_result(f'g{g}')
+                    w.drain()
             if not w.task.done():
                 w.violate('stepping-task-blocked', features(w, state=str(proc.state)),
                           'the task running step_until_terminated() is still pending at quiescence')
@@ -159,6 +164,9 @@ def units_for(tier: str) -> List[Any]:
             units.append((p, s))
     for p in list(programs.with_actions(list(programs.linear_programs(1, ('S', 'Y1'), (), ('ret',))), ('out',))):
         units.append((p, ('output_emitted', 1, ('kill', 't1'))))
+    # terminated from outside (a scheduled callback that raises) while an async step awaits a gate of its own
+    gated = list(programs.linear_programs(2, ('G',), ('cont', 'wait'), ('ret', 'raise')))
+    units += [(p, None) for p in programs.with_actions(gated, ('cs_raise',), wheres=('pre',))]
     # a one-shot listener, registered before the recording one, unsubscribes itself from inside a notification
     for p in list(programs.linear_programs(2, ('S', 'Y1'), ('cont', 'wait'), ('ret', 'raise', 'killcmd'))):
         for ev in ('running', 'waiting', 'finished', 'excepted', 'killed'):
@@ -215,7 +223,7 @@ def run_processes(tier: str, seed: int, workers: Any) -> Dict[str, Any]:
         rule='every placement of <=K requests from ' + repr(ALPHABET) + ' and <=J early gate completions between any two '
              'loop callbacks of every generated program (incl. kill while paused, during a step, from a listener); '
              'invariant sampled after every choice; non-trivial = terminated run with at least one request',
-        assumptions=['single event loop thread; control calls land between two loop callbacks',
+        assumptions=['what a step of its own awaits (a gate) completes eventually: stepping returns at the latest then', 'single event loop thread; control calls land between two loop callbacks',
                      'lifecycle hooks of the generated programs do not raise'],
         bounds=dict(budget, program_len=3), describe=describe_unit)
 
